@@ -24,7 +24,7 @@ def name_of(e):
 
 class Tr:
     def __init__(self, fname, locals_):
-        self.fname = fname; self.locals = locals_; self.used = []
+        self.fname = fname; self.locals = locals_; self.used = []; self.cur = []
     def var(self, n):
         if n not in LOCALS: raise Unsupported(f'untyped local {n}')
         if n not in self.used: self.used.append(n)
@@ -103,14 +103,16 @@ class Tr:
                 return f's_yield (fun env => {self.pure(s.value.value)})'
             if isinstance(s.value, ast.YieldFrom):
                 c, _ = self.call(s.value.value)
-                return f's_yield_from (fun env => {c})'
+                return f's_yield_from fuel (fun env => {c})'
             c, _ = self.call(s.value)
             return f's_do (fun env => {c})'
         if isinstance(s, ast.Return):
             if s.value is None: return 's_return (fun env => Ret VNone)'
             try: c, _ = self.call(s.value); return f's_return (fun env => {c})'
             except Unsupported: return f's_return (fun env => Ret {self.pure(s.value)})'
-        if isinstance(s, ast.Raise) and s.exc is None and s.cause is None: return 's_reraise'
+        if isinstance(s, ast.Raise) and s.exc is None and s.cause is None:
+            if not self.cur: raise Unsupported('bare raise outside handler')
+            return f's_raise_exn {self.cur[-1]}'
         if isinstance(s, ast.For) and isinstance(s.target, ast.Name) and not s.orelse:
             self.var(s.target.id)
             return f's_for set_{s.target.id} (fun env => {self.pure(s.iter)})\n ({self.block(s.body)})'
@@ -123,7 +125,9 @@ class Tr:
                 if cls not in ('ContractError', 'Exception', 'StopIteration'): raise Unsupported(f'handler {cls}')
                 bind = f'(Some set_{h.name})' if h.name else 'None'
                 if h.name: self.var(h.name)
-                hs.append(f'(H_{cls}, {bind}, {self.block(h.body)})')
+                self.cur.append(f'cur{len(self.cur)}')
+                hs.append(f'(H_{cls}, {bind}, fun {self.cur[-1]} => {self.block(h.body)})')
+                self.cur.pop()
             body = self.block(s.body)
             t = f's_try ({body})\n [{"; ".join(hs)}]' if hs else body
             if s.finalbody: t = f's_finally ({t})\n ({self.block(s.finalbody)})'
@@ -142,8 +146,9 @@ def translate(path, cls, funcs):
             body = tr.block(fn.body)
             kind = 'async' if isinstance(fn, ast.AsyncFunctionDef) else 'sync'
             out.append(f'(* {path}:{fn.lineno} {kind} def {fn.name}; locals: {", ".join(tr.used)} *)\n'
-                       f'Definition {fn.name.lstrip("_")} (fuel : nat) (self : contracts) : stmt :=\n {body}.\n')
-    return '\n'.join(out)
+                       f'Definition {fn.name.lstrip("_")} (fuel : nat) (self : contracts) : stmt env :=\n {body}.\n')
+    hdr = 'From Coq Require Import List ZArith Bool String.\nImport ListNotations.\nRequire Import Prog Model.\n\n'
+    return hdr + '\n'.join(out)
 
 if __name__ == '__main__':
     print(translate('/repo/deal/_runtime/_contracts.py', 'Contracts', ['_run_sync', '_run_async', '_run_iter']))
